@@ -126,6 +126,7 @@ type Exec struct {
 	carve      map[string]Term
 	inputs     []string
 	fmtHyp     []Term // hypotheses under which the verb/operand obligations are stated (fmtwhen)
+	fuelFor    map[string]int
 }
 
 func (x *Exec) unsupported(format string, a ...any) {
@@ -213,6 +214,8 @@ type Frame struct {
 	loops  map[*ssa.BasicBlock]*loopGhost
 	decAt  map[*ssa.BasicBlock][]Term
 	fuel   int
+	unfoldDepth map[string]int
+	noSafety bool
 	onReturn func(fr *Frame, g Term, vals []Val, st *State)
 }
 
@@ -279,6 +282,8 @@ func (x *Exec) runFunc(fn *ssa.Function, args []Val, free []Val, st *State, g Te
 		loops: map[*ssa.BasicBlock]*loopGhost{}, decAt: map[*ssa.BasicBlock][]Term{}}
 	if parent != nil {
 		fr.fuel = parent.fuel
+		fr.noSafety = parent.noSafety
+		fr.unfoldDepth = parent.unfoldDepth
 	}
 	if depth > 40 {
 		x.unsupported("inlining depth exceeded at %s", fn)
